@@ -27,6 +27,8 @@ def evalTime1 (args : List String) : String :=
         | _ => (faultK, 0)
       let step (i : Nat) : Nat → Att := if i < k then faultAtt t "none" else faultAtt t fault
       let T := max 1 t
+      -- a trailing "f" = the same call with a fast constant back-off (the model's run has no back-off delay at all)
+      let call := if call.endsWith "f" && call != "f" then (call.dropRight 1) else call
       let r := match call with
         | "hs" => runSeq T d (d + 2) ((List.range 3).map step) 0
         | "hsd" => runSeq T d (d + 2) ((List.range 5).map step) 0
